@@ -11,6 +11,14 @@ import (
 
 // VerifyFunc generates all obligations of one function under contract.
 func VerifyFunc(p *Program, key string) (enc *Enc, err error) {
+	return VerifyFuncOpt(p, key, false)
+}
+
+// VerifyFuncOpt with noInv: the fallback encoding without any loop invariant of the
+// function itself (loops are still cut: their modified state is havocked, nothing is
+// assumed about it).  What discharges in this encoding does not depend on the names of
+// locals, so it stays decided when a contract's invariants no longer attach.
+func VerifyFuncOpt(p *Program, key string, noInv bool) (enc *Enc, err error) {
 	fn := p.ByKey[key]
 	fc := p.Cs.Funcs[key]
 	if fn == nil {
@@ -23,6 +31,7 @@ func VerifyFunc(p *Program, key string) (enc *Enc, err error) {
 		return nil, fmt.Errorf("function %s has no body", key)
 	}
 	e := NewEnc(p, fn, fc)
+	e.NoInv = noInv
 	defer func() {
 		if r := recover(); r != nil {
 			if ee, ok := r.(encError); ok {
